@@ -567,11 +567,17 @@ class C20(Check):
         with time_limit(20):
             if call == 'classify':
                 mt = w['media_type']
-                got = [str(E._getTextTypeByMediaType(mt, log=None)), opt(E.encodingByMediaType(mt))]
+                try:
+                    got = [str(E._getTextTypeByMediaType(mt, log=None)), opt(E.encodingByMediaType(mt))]
+                except Exception as e:      # noqa: BLE001
+                    got = ['ERR ' + type(e).__name__] * 2
                 return {'lines': ['classify ' + opt(mt), 'ebm ' + opt(mt)], 'impl': got}
             if call == 'textType':
                 d = w['doc']
-                got = [str(E._getTextType(d.encode('latin-1') if w.get('bytes') else d))]
+                try:
+                    got = [str(E._getTextType(d.encode('latin-1') if w.get('bytes') else d))]
+                except Exception as e:      # noqa: BLE001
+                    got = ['ERR ' + type(e).__name__]
                 return {'lines': ['ttype ' + enc(d)], 'impl': got}
             if call == 'detectXMLEncoding':
                 return self.plan_sniff(E, w)
@@ -688,6 +694,9 @@ class C20(Check):
             self.oracle_classify(ctx, E, w, pl)
         elif call == 'textType':
             ctx.case(key=('tt', w['doc'], w.get('bytes')), nontrivial='<?xml' in w['doc'], kind='textType')
+            if pl['impl'][0].startswith('ERR'):
+                ctx.violate('a document given as text or as bytes is classified by its first characters (the call raised)',
+                            w, {'impl': pl['impl'][0]})
         elif call == 'detectXMLEncoding':
             self.oracle_sniff(ctx, E, w, pl)
         elif call == 'getEncodingInfo':
@@ -699,6 +708,9 @@ class C20(Check):
 
     def oracle_classify(self, ctx, E, w, pl):
         mt = w['media_type']
+        if pl['impl'][0].startswith('ERR'):
+            ctx.violate('every media type is classified (the call raised)', w, {'impl': pl['impl'][0]})
+            return
         cls = S.spec_classify(mt)
         codes = {'appxml': E._XML_APPLICATION_TYPE, 'textxml': E._XML_TEXT_TYPE, 'html': E._HTML_TEXT_TYPE,
                  'css': E._TEXT_UTF8, 'text': E._TEXT_TYPE, 'other': E._OTHER_TYPE}
